@@ -30,7 +30,7 @@ AXES = [
     ('channel_map', ['identity', 'perm', 'sub_high']),
     ('twice', [False, True]),            # the same creator converts twice
     ('wide', [False, True]),             # 14 channels: more than the 12-channel neighbourhood
-    ('label', ['', 'probe00']),
+    ('label', ['', 'probe00', 'a']),      # 'a': a label that is a substring of the file names
     ('factor', [1, 2.5]),
 ]
 
